@@ -139,6 +139,11 @@ def strings(maxlen):
             yield u''.join(t)
 
 
+LONG_PAYLOADS = ['"' * 40, u'\xe9' * 40 + '"', '\\' * 33 + '"', '$' * 100 + '\\', u'\u20ac"' * 35, 'a"' * 64, u'\xe9' * 1200,
+                 ('\\n' * 500) + '"', u'\u043f\u0440\u0438\u0432\u0435\u0442 ' * 300, '\t' * 1100, 'x' * 5000 + '"' + 'y' * 5000,
+                 '`' * 50 + '\\', ',' * 300, '\n' * 64, '>>' * 40 + '<<' * 40]
+
+
 def plan(tier, seed, excl):
     q = tier == 'quick'
     nsh = 16
@@ -146,6 +151,7 @@ def plan(tier, seed, excl):
     t += [('codepoints-probe', {'shard': i, 'of': nsh}) for i in range(nsh)]
     t += [('strings', {'shard': i, 'of': nsh, 'maxlen': 2 if q else 3}) for i in range(nsh)]
     t += [('random', {'shard': i, 'n': 300 if q else 8000}) for i in range(8)]
+    t += [('long', {'shard': i, 'of': 3}) for i in range(3)]
     return t
 
 
@@ -207,6 +213,23 @@ def run(part, args, env):
         acc.sample({'kind': 'probe', 'payloads': ss[1:4], 'fmt': 'json', 'ver': '3.0'})
         acc.exhaustive['all strings of length <= %d over the %d-character metachar alphabet, every position, both formats' % (
             args['maxlen'], len(ALPHABET))] = True
+    elif part == 'long':
+        n = 0
+        for i, p in enumerate(LONG_PAYLOADS):
+            if i % args['of'] != args['shard']:
+                continue
+            for fmt in ('zinc', 'json'):
+                n += 1
+                try:
+                    check_scalar_payload(p, fmt)
+                    for ver in ('2.0', '3.0'):
+                        check_probe([p], fmt, ver)
+                except Violation as v:
+                    v.case['payloads'] = [x[:200] + '...' if len(x) > 200 else x for x in v.case.get('payloads', [])] or None
+                    v.case['long_payload_index'] = i
+                    acc.violation(v)
+        acc.bulk(n, n, labels=('long-payload',))
+        acc.sample({'kind': 'long', 'index': args['shard'], 'length': len(LONG_PAYLOADS[args['shard']])})
     else:
         from hypothesis import strategies as st
         atoms = st.one_of(st.sampled_from(ALPHABET), st.sampled_from(gen.META_ATOMS), gen.any_char)
@@ -227,6 +250,10 @@ def run(part, args, env):
 
 
 def replay(stage, case):
+    if 'long_payload_index' in case:
+        p = LONG_PAYLOADS[case['long_payload_index']]
+        check_scalar_payload(p, case['fmt'], case.get('ver', '3.0'))
+        return check_probe([p], case['fmt'], case.get('ver', '3.0'))
     if case['kind'] == 'scalar':
         check_scalar_payload(case['payload'], case['fmt'], case.get('ver', '3.0'))
     else:
